@@ -10,11 +10,14 @@ extern "C" size_t __sanitizer_get_current_allocated_bytes(void);   // exported b
 #include "wrapcap.h"
 #include "wrapObj.h"
 #include "wrapOther.h"
+#include "wrapalpha_Item.h"
+#include "wrapbeta_Item.h"
+#include "wrapcap_beta.h"
 extern "C" void CAP_ShroudCopyStringAndFree(CAP_SHROUD_array *data, char *c_var, size_t c_var_len);
 extern "C" void CAP_ShroudCopyArray(CAP_SHROUD_array *data, void *c_var, size_t c_var_size);
-struct H { int type; CAP_SHROUD_capsule_data cap; CAP_SHROUD_array arr; };   // type 1 Obj, 2 Other, 3 ints, 4 string, 6 malloc'ed char *, 7 new'ed std::string, 8 malloc'ed doubles
+struct H { int type; CAP_SHROUD_capsule_data cap; CAP_SHROUD_array arr; };   // type 1 Obj, 2 Other, 3 ints, 4 string, 6 malloc'ed char *, 7 new'ed std::string, 8 malloc'ed doubles, 9 alpha::Item, 10 beta::Item
 static std::vector<H> hs;
-static CAP_SHROUD_capsule_data *capsule(H &h) { return (h.type == 1 || h.type == 2) ? &h.cap : &h.arr.cxx; }
+static CAP_SHROUD_capsule_data *capsule(H &h) { return (h.type == 1 || h.type == 2 || h.type == 9 || h.type == 10) ? &h.cap : &h.arr.cxx; }
 int main() {
   char line[256];
   int opno = 0;
@@ -31,6 +34,8 @@ int main() {
       if (a == 1) { CAP_Obj c; if (b % 3 == 0) CAP_Obj_ctor_0(&c); else if (b % 3 == 1) CAP_Obj_ctor_1(b, &c); else CAP_make(b, &c); h.cap.addr = c.addr; h.cap.idtor = c.idtor; }
       else if (a == 2) { CAP_Other c; if (b % 2) CAP_Other_ctor(&c); else CAP_make_other(&c); h.cap.addr = c.addr; h.cap.idtor = c.idtor; }
       else if (a == 3) { CAP_newints_bufferify(&h.arr, 3 + b % 4); }
+      else if (a == 9) { CAP_alpha_Item c; CAP_alpha_Item_ctor(&c); h.cap.addr = c.addr; h.cap.idtor = c.idtor; }
+      else if (a == 10) { CAP_beta_Item c; if (b % 2) CAP_beta_Item_ctor(&c); else CAP_beta_make_item(&c); h.cap.addr = c.addr; h.cap.idtor = c.idtor; }
       else if (a == 6) { CAP_dupname_bufferify(b, &h.arr); }
       else if (a == 7) { CAP_newstr_bufferify(b, &h.arr); }
       else if (a == 8) { CAP_newdbls_bufferify(&h.arr, 2 + b % 3); }
@@ -46,15 +51,19 @@ int main() {
       H &h = hs.at(a);
       if (h.type == 1) { CAP_Obj c; c.addr = h.cap.addr; c.idtor = h.cap.idtor; val = CAP_Obj_get(&c); }
       else if (h.type == 2) { CAP_Other c; c.addr = h.cap.addr; c.idtor = h.cap.idtor; val = CAP_Other_get(&c); }
+      else if (h.type == 9) { CAP_alpha_Item c; c.addr = h.cap.addr; c.idtor = h.cap.idtor; val = CAP_alpha_Item_get(&c); }
+      else if (h.type == 10) { CAP_beta_Item c; c.addr = h.cap.addr; c.idtor = h.cap.idtor; val = CAP_beta_Item_get(&c); }
       else if (h.type == 3) { val = ((int *)h.arr.cxx.addr)[0]; }
       else if (h.type == 6) { val = std::strlen((const char *)h.arr.cxx.addr); }
       else if (h.type == 8) { val = (long)((double *)h.arr.cxx.addr)[0]; }
       else { val = ((volatile unsigned char *)h.arr.cxx.addr)[8] >= 0; }   // a read inside the std::string object (instrumented here; libstdc++ is not)
-      if ((h.type == 1 || h.type == 2) && val == -777) { std::fflush(stdout); std::abort(); }   // the object says it has been released
+      if ((h.type == 1 || h.type == 2 || h.type == 9 || h.type == 10) && val == -777) { std::fflush(stdout); std::abort(); }   // the object says it has been released
     } else if (!std::strcmp(cmd, "dtor")) {
       H &h = hs.at(a);
       if (h.type == 1) { CAP_Obj c; c.addr = h.cap.addr; c.idtor = h.cap.idtor; CAP_Obj_delete(&c); h.cap.addr = c.addr; h.cap.idtor = c.idtor; }
       else if (h.type == 2) { CAP_Other c; c.addr = h.cap.addr; c.idtor = h.cap.idtor; CAP_Other_delete(&c); h.cap.addr = c.addr; h.cap.idtor = c.idtor; }
+      else if (h.type == 9) { CAP_alpha_Item c; c.addr = h.cap.addr; c.idtor = h.cap.idtor; CAP_alpha_Item_delete(&c); h.cap.addr = c.addr; h.cap.idtor = c.idtor; }
+      else if (h.type == 10) { CAP_beta_Item c; c.addr = h.cap.addr; c.idtor = h.cap.idtor; CAP_beta_Item_delete(&c); h.cap.addr = c.addr; h.cap.idtor = c.idtor; }
       else { std::printf("op %d badop\n", opno); std::fflush(stdout); return 3; }
     } else if (!std::strcmp(cmd, "release") || !std::strcmp(cmd, "copyfree")) {
       // release: the generated release function; copyfree (string result): the copy-out helper copies and releases
@@ -68,7 +77,7 @@ int main() {
       if (was_ints) --counters.ints_live;
       // the released handle is cleared (this is what makes a second release a no-op) and a caller-owned heap result was given back
       if (capsule(h)->addr != 0 || capsule(h)->idtor != 0) { std::printf("op %d notcleared\n", opno); std::fflush(stdout); return 5; }
-      if (owned && (h.type == 3 || h.type == 4 || h.type == 6 || h.type == 7 || h.type == 8) && !(after < before)) { std::printf("op %d notfreed\n", opno); std::fflush(stdout); return 5; }
+      if (owned && (h.type == 3 || h.type == 4 || h.type == 6 || h.type == 7 || h.type == 8 || h.type == 9 || h.type == 10) && !(after < before)) { std::printf("op %d notfreed\n", opno); std::fflush(stdout); return 5; }
     } else if (!std::strcmp(cmd, "tmp")) {
       // wrappers that convert arguments through temporary buffers: a = text / element count, b = room in the caller's buffer.
       // The caller's buffers are exact-size heap blocks, so that AddressSanitizer sees any access beyond them; afterwards
